@@ -1,5 +1,5 @@
 (* Entry point of the extracted executable for C15. *)
-From CV Require Import Base.Bytes Base.Glob Supp.Defs Supp.Run Par.Gen_Severity Par.Defs.
+From CV Require Import Base.Bytes Base.Glob Supp.Defs Supp.Run Par.Gen_Severity Par.Defs Par.SupprWire.
 Local Open Scope N_scope.
 
 Definition take_loc (l : list str) : option (loc * list str) :=
@@ -66,6 +66,20 @@ Definition T_HTL : str := [104;116;108].                 (* "htl" *)
 Definition T_UPD : str := [117;112;100].                 (* "upd" *)
 Definition T_HTLM : str := [104;116;108;109].            (* "htlm" *)
 Definition T_RENDER : str := [114;101;110;100;101;114].  (* "render" *)
+Definition T_SSTR : str := [115;115;116;114].            (* "sstr" *)
+Definition T_SREAD : str := [115;114;101;97;100].        (* "sread" *)
+Definition T_SWIRE : str := [115;119;105;114;101].       (* "swire" *)
+
+Definition take_ws (l : list str) : option wsupp :=
+  match l with
+  | id :: file :: line :: sym :: poly :: col :: chk :: mat :: com :: _ =>
+      Some (mkWS id file (zd line) sym (bool_of_str poly) (zd col) (bool_of_str chk) (bool_of_str mat) com)
+  | _ => None
+  end.
+
+Definition ws_out (w : wsupp) : list str :=
+  [ws_id w; ws_file w; dec_of_Z (ws_line w); ws_symbol w; str_of_bool (ws_poly w); dec_of_Z (ws_col w);
+   str_of_bool (ws_checked w); str_of_bool (ws_matched w); ws_comment w].
 Definition T_INT : str := [105;110;116].                 (* "int" *)
 
 Definition run (fields : list str) : list str :=
@@ -154,6 +168,22 @@ Definition run (fields : list str) : list str :=
             | None => BAD
             end
         | [] => BAD
+        end
+      else if tag_is tag T_SSTR then
+        match take_ws args with Some w => [ws_to_string w] | None => BAD end
+      else if tag_is tag T_SWIRE then
+        match take_ws args with
+        | Some w => [suppr_to_wire w; str_of_bool (ws_ok sid w);
+                     str_of_bool (match suppr_of_wire sid (suppr_to_wire w) with Ok _ => true | Err _ => false end)]
+        | None => BAD
+        end
+      else if tag_is tag T_SREAD then
+        match args with
+        | [buf] => match suppr_of_wire sid buf with
+                   | Ok w => [111; 107] :: ws_out w
+                   | Err e => [[69]; dec_of_N e]
+                   end
+        | _ => BAD
         end
       else if tag_is tag T_UPD then
         match take_list take_supp args with
